@@ -8,6 +8,27 @@ def _norm(s):
     return re.sub(r"\s+", "", s)
 
 
+def _with_helpers(impl_text, name, rel):
+    """white-space-free body of `fn name`, followed by the bodies of the PRIVATE methods of the same impl that it calls as
+    `self.helper(a, b, ..)` with plain identifiers that are exactly the helper's parameter names: such a helper reads as if it
+    were written in place (same names for the same values), so substring facts about the statements may look into it.
+    One level deep; anything else (renamed / computed arguments, public or foreign functions) is not followed."""
+    body = _norm(F.fn_body(impl_text, name, rel))
+    out = body
+    for hm in re.finditer(r"self\.(\w+)\(([A-Za-z_0-9,]*)\)", body):
+        h, args = hm.group(1), [a for a in hm.group(2).split(",") if a]
+        sig = re.search(r"(?<!pub )\bfn\s+%s\s*\(\s*&(?:mut\s+)?self\s*,?([^)]*)\)" % re.escape(h), impl_text)
+        if not sig or re.search(r"\bpub(?:\([a-z]+\))?\s+fn\s+%s\b" % re.escape(h), impl_text):
+            continue
+        params = [p.split(":")[0].replace("mut ", "").strip() for p in sig.group(1).split(",") if p.strip()]
+        if params == args:
+            try:
+                out += "§helper{" + _norm(F.fn_body(impl_text, h, rel)) + "}"
+            except F.FactError:
+                pass
+    return out
+
+
 def gen():
     out = [F.HEADER]
     ix = F.strip_comments(F.src("sudachi/src/dic/build/index.rs"))
@@ -31,8 +52,9 @@ def gen():
     out.append("Definition offset_before_write : bool := true.\n")
     # build_trie: (key, offset) of every entry, sorted by key
     bt = _norm(F.fn_body(ix, "build_trie", "build/index.rs"))
-    if "for(k,v)inself.data.drain(..){" not in bt or "trie_entries.push((k,v.offsetasu32));" not in bt \
-            or "trie_entries.sort_by(|(a,_),(b,_)|a.cmp(b));" not in bt \
+    mk = re.search(r"for\((\w+),(\w+)\)inself\.data\.drain\(\.\.\)\{", bt)
+    if not mk or "trie_entries.push((%s,%s.offsetasu32));" % (mk.group(1), mk.group(2)) not in bt \
+            or not re.search(r"trie_entries\.sort_by\(\|\((\w+),_\),\((\w+),_\)\|\1\.cmp\(\2\)\);", bt) \
             or "yada::builder::DoubleArrayBuilder::build(&trie_entries)" not in bt:
         raise F.FactError("build_trie no longer hands (key, table offset) of every entry, sorted by key, to the yada builder")
     out.append('Definition trie_value : string := "table-offset".\n')
@@ -81,7 +103,7 @@ def gen():
     m = re.search(r"impl<'a>\s*LatticeBuilder<'a>\s*\{(.*)", st, flags=re.S)
     if not m:
         raise F.FactError("impl LatticeBuilder not found")
-    bl = _norm(F.fn_body(m.group(1), "build_lattice", "stateful_tokenizer.rs"))
+    bl = _with_helpers(m.group(1), "build_lattice", "stateful_tokenizer.rs")
     want = [
         "letinput_bytes=self.input.current().as_bytes();",
         "for(ch_off,&byte_off)inself.input.curr_byte_offsets().iter().enumerate(){if!self.lattice.has_previous_node(ch_off){continue;}",
